@@ -1,6 +1,9 @@
 """C01 — parse → pretty-print → parse preserves Mapfile content.
 proof leg: Mappy.Props.C01 (per lexical class: the token the printer writes is read back by the transformer as the original value,
-           up to the two allowed differences; int(str(n)) = n for every integer) + C03 / C04 / C02 lemmas it composes.
+           up to the two allowed differences; int(str(n)) = n for every integer) + C03 / C04 / C02 lemmas it composes;
+           Mappy.Props.C01Attr (whole keyword lines: the tree of `KEYWORD <printed token>` — keyword in any letter case — goes
+           through the value rule's call-back and `attr` to `keyword ↦ original value`, for strings, integers, enumerated
+           words, numbers at string keywords and booleans).
 correspondence: `pp` (printer model vs PrettyPrinter.pprint, exact strings) on the dictionaries, `transform` on the real Lark tree
            of the PRINTED text (the reader side of the loop).
 oracle: real loads → dumps → loads on every loadable corpus file and on schema-generated documents covering every object type,
@@ -102,6 +105,36 @@ def excluded(d):
     return walk(d)
 
 
+PASS_RULES = {"string", "path", "regexp", "runtime_var"}
+
+
+def line_shapes(ctx, tree, text):
+    """the premise of the C01_line_* theorems, on the real tree of the PRINTED text: a keyword line with one value token is
+    `attr [KEY, rule [TOKEN]]` with rule ∈ string/path/regexp/runtime_var (pass-through), int, float, true, false — or
+    `attr [KEY, TOKEN]` for a bare word — and the token text agrees with the rule"""
+    from lark import Tree, Token
+    for node in tree.iter_subtrees():
+        if node.data != "attr" or len(node.children) != 2:
+            continue
+        key, val = node.children
+        if not isinstance(key, Token):
+            continue
+        if isinstance(val, Token):
+            ctx.count("line-shape:bare word"); continue
+        if not isinstance(val, Tree) or len(val.children) != 1 or not isinstance(val.children[0], Token):
+            ctx.count(f"line-shape:structured ({getattr(val, 'data', '?')})"); continue
+        rule, tok = str(val.data), str(val.children[0])
+        ok = (rule in PASS_RULES or (rule == "int" and tok.lstrip("+-").isdigit()) or rule == "float"
+              or (rule in ("true", "false") and tok.lower() == rule) or rule in ("attr_bind", "hexcolor", "list", "expression", "not_expression", "func_call"))
+        if rule in PASS_RULES and rule == "string" and tok[:1] not in "\"'`":
+            ok = False
+        ctx.count(f"line-shape:{rule}")
+        if not ok:
+            ctx.corr_diff("line-shape", {"text": text[:600]}, f"{rule}({tok[:40]})", "token text does not fit the rule")
+            return
+    ctx.corr_ok("line-shape")
+
+
 def explore(ctx, scale=1.0):
     import mappyfile
     from mappyfile.transformer import MapfileToDict
@@ -155,6 +188,7 @@ def explore(ctx, scale=1.0):
             continue
         try:
             tree2 = P.parse(out)
+            line_shapes(ctx, tree2, out)
             if trees.ascii_case_safe(tree2) and idx % 3 == 0:
                 treqs.append(trees.request(tree2, False, False)); tkeep.append((out, trees.real_transform(tree2, False, False)))
                 tree2 = P.parse(out)
@@ -182,6 +216,6 @@ def explore(ctx, scale=1.0):
 def main(ctx):
     if ctx.replay:
         print(open(ctx.replay).read()[:4000]); return
-    core.proof_leg(ctx, ["Mappy.Props.C01"])
+    core.proof_leg(ctx, ["Mappy.Props.C01", "Mappy.Props.C01Attr"])
     explore(ctx)
     core.finish(ctx, LEVEL_NOTE, RULE, search=lambda c: explore(c, scale=2.0))
